@@ -63,6 +63,12 @@ pub fn rt_edge_image() -> ImageSet {
     filled_image("G9w-rt-edge", "rt-edge", 140, 4094)
 }
 
+/// refcount blocks 0..62 exist and are full but for two clusters: the next allocations create
+/// refcount block 63, the last entry of the refcount table's first (only) 512-byte block
+pub fn rb63_edge_image() -> ImageSet {
+    filled_image("G9w-rb63-edge", "rb63-edge", 140, 63 * 64 - 2)
+}
+
 /// the header lists one L1 entry although the virtual size needs 192 (three L1 clusters)
 pub fn short_l1_image() -> ImageSet {
     let g = g9_wide(192);
@@ -80,6 +86,7 @@ pub fn find_extra_image(name: &str) -> Option<ImageSet> {
         "GF-frag" => Some(frag_image()),
         "G9w-rb-edge" => Some(rb_edge_image()),
         "G9w-rt-edge" => Some(rt_edge_image()),
+        "G9w-rb63-edge" => Some(rb63_edge_image()),
         "G9w-short-l1" => Some(short_l1_image()),
         _ => None,
     }
